@@ -379,7 +379,7 @@ pub fn check(ctx: &mut Ctx, which: &'static str) {
         for (i, (ds, de)) in pairs.iter().enumerate() {
             seeds.push(crate::fuzzglue::encode("tokens", i as u8, 0, &format!("x{ds}rm name='a'{de}é{ds}/rm{de}\n{ds}")));
         }
-        ctx.fuzz_campaign("tokens", 500_000, 256, seeds, move |data| crate::fuzzglue::fuzz_one("tokens", which, data));
+        ctx.fuzz_campaign("tokens", 300_000, 256, seeds, move |data| crate::fuzzglue::fuzz_one("tokens", which, data));
     }
 }
 
